@@ -153,7 +153,7 @@ func c04R3(c *Ctx, id string) {
 				if after[ret] {
 					continue
 				}
-				if g, ok := returnedGlobal(ret); ok {
+				for _, g := range returnedGlobals(ret) {
 					got[g] = true
 				}
 			}
